@@ -21,7 +21,7 @@ ASSUMPTIONS = [
     "a refused to_string->parse_cdc restart is logged, not judged (C03 is not applicable to this technique)",
 ]
 PLAN = {
-    "quick": {"histories": 24000, "per_job": 400, "wall_limit": 1200.0, "per_job_limit": 900.0},
+    "quick": {"histories": 60000, "per_job": 500, "wall_limit": 1200.0, "per_job_limit": 900.0},
     "thorough": {"histories": 1500000, "per_job": 2500, "wall_limit": 5 * 3600.0, "per_job_limit": 2400.0},
 }
 
